@@ -432,6 +432,21 @@ def check_transforms(run):
         clear_engine_cache()
         if c != exp:
             O.fail('C01.transforms_before_matching', {'transform_case': [desc, fld], 'rules_text': text2}, exp, c, 'normalize_merchant(..., transforms=...)')
+    # a chain: the first transform CREATES a helper field (on a source without custom columns the transaction has no field dict yet), the second reads it
+    text3 = ('field.vendor = regex_replace(field.description, "^PFX\\s+", "")\n'
+             'field.description = trim(field.vendor)\n\n'
+             '[A]\nmatch: startswith("AAA")\ncategory: CatA\nsubcategory: SubA\n\n'
+             '[Pfx]\nmatch: contains("PFX")\ncategory: CatPfx\nsubcategory: S\n')
+    open(path, 'w').write(text3)
+    for desc, fld, exp in (('PFX AAA STORE', None, 'CatA'), ('PFX AAA STORE', {}, 'CatA'), ('PFX AAA STORE', {'memo': 'x'}, 'CatA'), ('PFX BBB', None, 'Unknown')):
+        O.case(('transform3', desc, str(fld)))
+        clear_engine_cache()
+        tuples = get_all_rules(path)
+        tr = get_transforms(path)
+        m, c, s, info = normalize_merchant(desc, tuples, amount=5.0, txn_date=date(2025, 1, 1), field=dict(fld) if fld is not None else None, transforms=tr)
+        clear_engine_cache()
+        if c != exp:
+            O.fail('C01.transforms_before_matching', {'transform_case': [desc, fld], 'rules_text': text3}, exp, c, 'normalize_merchant(..., transforms=...)')
 
 
 def check_list_valued_tags(run):
